@@ -811,7 +811,7 @@ def _check_make_ann(ctx: Ctx) -> None:
     _memo_key(ctx, fi)
 
 
-def _memo_key(ctx: Ctx, fi: FuncInfo) -> None:
+def _memo_key(ctx: Ctx, fi: FuncInfo, rid: str = "D16.9") -> None:
     """`make_ann` caches its results as attributes of itself.  The key must
     be built from every parameter of the function (each of them changes the
     generated network), the look-up and the store must use the same key,
@@ -873,6 +873,13 @@ def _memo_key(ctx: Ctx, fi: FuncInfo) -> None:
                     f"the cache key `{ktxt[:90]}` does not depend on "
                     f"{missing}: two requests that differ only there share "
                     "one cached controller")
+            amb = _ambiguous_key(k)
+            if amb:
+                problems.append(
+                    f"the cache key `{ktxt[:90]}` {amb}: different "
+                    "requests (e.g. dimensions 2, 1, [3] and 21, 3, []) "
+                    "get the same key and share one cached controller, "
+                    "which then indexes arrays of the wrong size")
         rets = [e for e in p.events if e.kind == "return"]
         for _k, val in stored:
             if p.ended == "return" and not any(
@@ -880,15 +887,39 @@ def _memo_key(ctx: Ctx, fi: FuncInfo) -> None:
                     == ast.unparse(val) for r in rets):
                 problems.append("what is cached is not what is returned")
     if not any_cache:
-        ctx.ob("D16.9", fi, fi.node, True,
+        ctx.ob(rid, fi, fi.node, True,
                "make_ann keeps no cache", construct="memo key",
                nontrivial=False)
         return
-    ctx.ob("D16.9", fi, node, not problems,
+    ctx.ob(rid, fi, node, not problems,
            "controllers are cached under a key built from "
            f"{', '.join(fi.params)}; look-up and store use the same key"
            if not problems else "; ".join(dict.fromkeys(problems)),
            construct="memo key")
+
+
+def _ambiguous_key(k: ast.expr) -> str:
+    """Is the text key built by writing several numbers one after the other
+    without anything between them (so that it cannot be split again)?"""
+    for n in ast.walk(k):
+        if isinstance(n, ast.Call) and isinstance(n.func, ast.Attribute) \
+                and n.func.attr == "join" and isinstance(
+                n.func.value, ast.Constant) and isinstance(
+                n.func.value.value, str):
+            sep = n.func.value.value
+            if sep == "" or sep.isdigit():
+                return ("joins the numbers with the separator "
+                        f"{sep!r}")
+        if isinstance(n, ast.JoinedStr):
+            vals = n.values
+            for a_, b_ in zip(vals, vals[1:]):
+                if isinstance(a_, ast.FormattedValue) and isinstance(
+                        b_, ast.FormattedValue) and not any(
+                        isinstance(c, ast.Call) and isinstance(
+                            c.func, ast.Attribute) and c.func.attr == "join"
+                        for x_ in (a_, b_) for c in ast.walk(x_)):
+                    return "writes two values directly after each other"
+    return ""
 
 
 def _system_outputs(repo: Any, kern: FuncInfo) -> list[Any]:
